@@ -234,6 +234,23 @@ func invalidCorpus() []CorpusReq {
 			out = append(out, CorpusReq{Name: fmt.Sprintf("invalid/%s-unknown-ordering-nothing-selected-%d", name, si), Req: withBiases(ws, []M{bias(name, props)}), Valid: false, Rule: "ordering-name-unknown-nothing-selected"})
 		}
 	}
+	// unknown alternatives whose name is untidy (white space only, a known id with a space, another letter case)
+	for _, m := range []string{"majorityHeuristic", "satisfactionHeuristic"} {
+		for ni, name := range []string{" ", "\t", "a ", "A"} {
+			out = append(out, CorpusReq{Name: fmt.Sprintf("invalid/%s-unknown-current-choice-untidy-%d", m, ni), Req: withMP(rootRequest(m, true, false), M{"currentChoice": name}), Valid: false, Rule: "unknown-alternative-untidy-name"})
+		}
+	}
+	for ni, name := range []string{" ", "a ", "A"} {
+		out = append(out, CorpusReq{Name: fmt.Sprintf("invalid/unknown-alternative-in-choseToMake-untidy-%d", ni), Req: set(ws, L{"a", name}, "choseToMake"), Valid: false, Rule: "unknown-alternative-untidy-name"})
+	}
+	// Choquet: a capacity outside [0,1] under a key that no evaluation ever looks up (a criterion named twice, a subset
+	// spelt in another order next to its sorted spelling is a redeclaration and covered above)
+	for ki, kv := range []struct {
+		k string
+		v float64
+	}{{"c1,c1", 3}, {"c2,c1,c2", -2}, {"c3,c3,c3", 1.5}} {
+		out = append(out, CorpusReq{Name: fmt.Sprintf("invalid/choquet-weight-out-of-range-on-unused-key-%d", ki), Req: set(ch, kv.v, "methodParameters", "weights", kv.k), Valid: false, Rule: "choquet-weight-out-of-range-unused-key"})
+	}
 	for i := range out {
 		out[i].Name = fmt.Sprintf("%s", out[i].Name)
 	}
